@@ -237,8 +237,10 @@ func (s *ServerSession) doMsg(stream *Stream) error {
 	case base.RtmpTypeIdAudio:
 		fallthrough
 	case base.RtmpTypeIdVideo:
-		if s.sessionStat.BaseType() != base.SessionBaseTypePubStr {
+		// 注意，只有publish成功后，才有音视频数据的接收者
+		if s.sessionStat.BaseType() != base.SessionBaseTypePubStr || s.avObserver == nil {
 			err = nazaerrors.Wrap(base.ErrRtmpUnexpectedMsg)
+			break
 		}
 		s.avObserver.OnReadRtmpAvMsg(stream.toAvMsg())
 	default:
@@ -283,7 +285,7 @@ func (s *ServerSession) doUserControl(stream *Stream) error {
 	return nil
 }
 func (s *ServerSession) doDataMessageAmf0(stream *Stream) error {
-	if s.sessionStat.BaseType() != base.SessionBaseTypePubStr {
+	if s.sessionStat.BaseType() != base.SessionBaseTypePubStr || s.avObserver == nil {
 		return nazaerrors.Wrap(base.ErrRtmpUnexpectedMsg)
 	}
 
